@@ -262,7 +262,7 @@ func pacedOrder(ctx *Ctx, max int, gaps, durs []int) {
 }
 
 func checkC08(ctx *Ctx) {
-	ctx.Res.Rule = "chains of 1-3 processes over 2-8 items whose per-item command durations are random (later items usually finish long before earlier ones; in a third of the cases the outputs of some items exist before the run, so that their tasks are skipped), maxConcurrentTasks 1-8, SCIPIPE_BUFSIZE 1-3 or 128, optional fan-in of a second upstream into the last port; recorder components after every process; non-trivial = some later item is faster than an earlier one and more than one slot; distinct by case. Checks: recorded order equals arrival order on every out-port, per-sender order through fan-in, counts, and per process goroutine the hook trace's dequeue sequence is a prefix of its accept sequence."
+	ctx.Res.Rule = "chains of 1-3 processes over 2-8 items whose per-item command durations are random (later items usually finish long before earlier ones; in a third of the cases the outputs of some items exist before the run, so that their tasks are skipped), maxConcurrentTasks 1-8, SCIPIPE_BUFSIZE 1-3 or 128, optional fan-in of a second upstream into the last port; recorder components after every process; non-trivial = some later item is faster than an earlier one and more than one slot; distinct by case. Checks: recorded order equals arrival order on every out-port, per-sender order through fan-in, counts, and per process goroutine the hook trace's dequeue sequence is a prefix of its accept sequence; also: arrival order behind a streaming out-port (tasks with different start-up cost), a joining process with several carriers whose sub-streams close in reverse order, arrivals paced against busy slots."
 	r := NewRng(ctx.Seed)
 	n := 12
 	if ctx.Thorough() {
